@@ -6,6 +6,7 @@ CONSTANTS
   MaxClients0 = 1
   ServerAddrs = 1
   TokenSingleUse = TRUE
+  TokenTable = 2048
   MaxSteps = 6
   Addrs = {1, 2}
   Dts = {250}
